@@ -388,7 +388,43 @@ def defaults(c):
         c.canary("canary_nothing_written", r.M1(k) == r.M0(k))
 
 
+
+@contract(P, "RecordTensor.__init__[initial observation]", [(INF, "RecordTensor.__init__"), (INF, "RecordTensor.write"), (INF, "RecordTensor.push"), (INF, "RecordTensor.read")], min_obligations=4)
+def ctor_initial_value(c):
+    """a record constructed with an initial observation (how every synapse builds its spike / current history) holds that
+    observation in every slot, and its slots are INDEPENDENT storage: one push - in place or not - changes the newest
+    slot only, every older slot still reads the initial observation"""
+    from pyvc import repo as _repo
+
+    it = c.interp
+    mod = _repo.load_module(INF)
+    Module = it.classv(mod.classes["Module"])
+    RT = it.classv(mod.classes["RecordTensor"])
+    dt, dur = c.real("dt"), c.real("dur")
+    c.require(dt > 0, dur >= 0)
+    v0 = c.pw("initial_observation", "float", eshape=tz.Shape((3,)))
+    obs = c.pw("pushed_observation", "float", eshape=tz.Shape((3,)))
+    owner = it.instantiate(Module, [], {})
+    rec = it.instantiate(RT, [owner, "x", dt, dur, v0], {"inclusive": True})
+    N = num(owner.fields["_x_constraints"][0])
+    data = owner.fields["_x_data"]
+    k = c.int("k")
+    c.require(0 <= k, k < N)
+    c.ensure("every_slot_holds_the_initial_observation", z3.And(num(data.tlen) == N, data.f(k.z) == v0.f))
+    inplace = c.choice("inplace", [True, False])
+    out = c.outcome(c.getattr(rec, "push"), obs, inplace)
+    c.expect_return(out)
+    j = c.int("steps_back")
+    c.require(1 <= j, j < N)
+    newest = c.call(c.getattr(rec, "read"), 1)
+    c.ensure("newest_is_the_pushed_observation", newest.f == obs.f)
+    older = c.outcome(c.getattr(rec, "read"), j + 1)
+    if older.ok:
+        c.ensure("older_slots_still_hold_the_initial_observation", z3.Implies(j.z + 1 <= N, older.value.f == v0.f))
+    c.canary("canary_every_slot_overwritten", z3.And(N >= 2, older.ok and older.value.f == obs.f, v0.f != obs.f))
+
 MUTANTS = [
+    dict(file=INF, func="RecordTensor.__init__", old="                value = value.unsqueeze(0).repeat(\n                    *chain((size,), repeat(1, times=value.ndim))\n                )", new="                value = value.unsqueeze(0).expand(size, *value.shape)", contracts=["RecordTensor.__init__[initial observation]"], name="seed C01g: initial storage is a stride-0 view (all slots share one row)"),
     dict(file=INF, func="RecordTensor.push", old="                dtype=(obs.dtype if self.__data is None else None),", new="                dtype=obs.dtype,", contracts=["RecordTensor.push[uninitialized]"], name="seed C01d: first push overrides the data type of typed empty storage"),
     dict(file=INF, func="RecordTensor.readrange", old="        offset: int | torch.Tensor = 1,\n        forward: bool = False,\n    ) -> torch.Tensor:", new="        offset: int | torch.Tensor = 0,\n        forward: bool = False,\n    ) -> torch.Tensor:", contracts=["RecordTensor.defaults"], name="readrange: default offset changed"),
     dict(file=INF, func="RecordTensor.write", old="def write(self, obs: torch.Tensor, offset: int = 0, inplace: bool = False)", new="def write(self, obs: torch.Tensor, offset: int = 1, inplace: bool = False)", contracts=["RecordTensor.defaults"], name="write: default offset changed"),
